@@ -50,8 +50,8 @@ func init() {
 			Old: "return fmt.Sprintf(\"%s:%d\", m.Server, m.Sequence)", New: "return fmt.Sprintf(\"%s-%d\", m.Server, m.Sequence)",
 			Expect: "C19-R6 separator@Mysql56GTID"},
 		Variant{ID: "c19-r7-contains-forward-walk", Prop: "C19", File: "replication/mariadb_gtid.go",
-			Old: "\tfor _, gtid := range mdbOther {\n\t\tif !gtidSet.ContainsGTID(gtid) {\n\t\t\treturn false\n\t\t}\n\t}\n\treturn true",
-			New: "\ti := 0\n\tfor _, gtid := range mdbOther {\n\t\tfor i < len(gtidSet) && gtidSet[i].Domain != gtid.Domain {\n\t\t\ti++\n\t\t}\n\t\tif i == len(gtidSet) || gtidSet[i].Sequence < gtid.Sequence {\n\t\t\treturn false\n\t\t}\n\t}\n\treturn true",
+			Old:    "\tfor _, gtid := range mdbOther {\n\t\tif !gtidSet.ContainsGTID(gtid) {\n\t\t\treturn false\n\t\t}\n\t}\n\treturn true",
+			New:    "\ti := 0\n\tfor _, gtid := range mdbOther {\n\t\tfor i < len(gtidSet) && gtidSet[i].Domain != gtid.Domain {\n\t\t\ti++\n\t\t}\n\t\tif i == len(gtidSet) || gtidSet[i].Sequence < gtid.Sequence {\n\t\t\treturn false\n\t\t}\n\t}\n\treturn true",
 			Expect: "C19-R7 full-scan@Contains"},
 	)
 }
@@ -629,7 +629,6 @@ func partIndex(v ssa.Value, split *ssa.Call, seen map[ssa.Value]bool) (int64, bo
 	}
 	return 0, false
 }
-
 
 // R7: a MariaDB set is an unordered list of one position per domain, so every lookup in it must be able to see every
 // element: (a) no order-assuming search (sort.Search*, sort.Find, slices.BinarySearch*) in its methods or the closures and
